@@ -6,7 +6,7 @@
   specification's tree with the same nesting, order, duplicates, strings and number spans.
     * `render_parses_back`: for EVERY well-formed tree the strict RFC specification reads the
       rendering back as exactly that tree (`docTree (render t) = t`): losslessness;
-      (the second pass of the implementation is compared byte for byte by the check);
+    * `second_pass_is_identical`: writing what was read back gives the same bytes: fixpoint;
     * `string_lossless` / `string_fixpoint`: the string part, wherever the literal stands;
     * `sorted_is_permutation / ascending / stable`: the sort_keys build.
   Well-formedness only asks every number literal to be one JSON number before a delimiter
@@ -14,6 +14,7 @@
 -/
 import SonicModel.Lemmas.RoundTrip
 import SonicModel.Lemmas.TreeRoundTrip
+import SonicModel.Lemmas.SecondPass
 import SonicModel.Lemmas.SortProof
 import SonicModel.Thm.C05
 namespace Sonic.Thm.C06
@@ -41,6 +42,11 @@ theorem string_fixpoint (s : List UInt8) :
     tree back as exactly that tree (nesting, order, duplicated keys, strings, number literals) -/
 theorem render_parses_back (t : RJ) (h : t.WF) : docTree false t.render.toArray = some (t.jsonAt 0) :=
   doc_roundtrip t h
+
+/-- **fixpoint**: writing the tree the specification reads back from a rendering gives the same bytes -/
+theorem second_pass_is_identical (t : RJ) (h : t.WF) :
+    (docTree false t.render.toArray).map (fun j => (Json.toRJ t.render.toArray j).render) = some t.render :=
+  second_pass t h
 
 /-- … wherever the rendering stands inside a larger text (before a delimiter, with enough fuel) -/
 theorem render_parses_back_in_context (t : RJ) (h : t.WF) (pre suf : List UInt8) (f : Nat)
